@@ -447,6 +447,8 @@ func c19Generate(tier string, emit func(src string)) {
 		"\u00a0<html><body><p>x</p></body></html>", "\u00a0<!DOCTYPE html><html><body><p>x</p></body></html>",
 		`<!-- c --><!DOCTYPE html PUBLIC "-//W3C//DTD HTML 4.01//EN" "http://www.w3.org/TR/html4/strict.dtd"><html><body><p>a</p></body></html>`, `<!-- c --><!DOCTYPE html SYSTEM "about:legacy-compat"><html><body><p>a</p></body></html>`,
 		`<!DOCTYPE html PUBLIC "-//W3C//DTD HTML 4.01//EN" "http://www.w3.org/TR/html4/strict.dtd"><html><body><p>a</p></body></html>`,
+		"---\r\ntitle: x\r\nlist:\r\n  - a\r\n---\r\n<p>a</p>\r\n", "---\r\ntitle: x\r\n---\r\n<!DOCTYPE html>\r\n<html>\r\n<body>\r\n<p>a</p>\r\n</body>\r\n</html>\r\n",
+		"<!DOCTYPE html PUBLIC \"-//W3C//DTD XHTML 1.0 Strict//EN\"\r\n  \"http://www.w3.org/TR/xhtml1/DTD/xhtml1-strict.dtd\">\r\n<html><body><p>a</p></body></html>", "<div>\r\n  <p>crlf text\r\n  more</p>\r\n</div>\r\n", "<pre>a\r\nb</pre>",
 		`<p>{{ a &amp;lt b }}</p>`, `<p>{{ a &amp;amp b }} &amp;amp c</p>`, `<p>{{ a &amp;&amp; b &amp;y }}</p>`,
 	} {
 		emit(src)
